@@ -1,4 +1,5 @@
 import Pocket.Lemmas.RoundTrip
+import Pocket.Lemmas.ListAux
 /- `Filter::from_json ∘ Filter::as_json = id` (C07): the JSON text `as_json` writes for a filter
 whose tag constraints are named by distinct letters parses back to exactly the bytes `from_parts`
 writes for that filter. -/
@@ -340,14 +341,14 @@ theorem flMember_limit (st : FlSt) (n : Nat) (X : Bytes) (h0 : st.limit = none) 
   simp [flMember, verifyChar, startsWith, kIds, kAuthors, kKinds, kSince, kUntil, kLimit, h0, eatColon_dec, hr, hle]
 
 theorem flMember_tag (st : FlSt) (l : Nat) (vs : List Bytes) (hu : ∀ v ∈ vs, IsUtf8 v) (vj R : Bytes)
-    (hv : ftagValuesJson vs true = .ok vj) (hl : isLetter l = true) (h32 : st.tagStarts.length < 32)
+    (hv : ftagValuesJson vs true = .ok vj) (hl : isLetter l = true) (h32 : st.tagStarts.length < 52)
     (hnew : l ∉ st.letters) :
     flMember st (34 :: 35 :: l :: 34 :: 58 :: 91 :: (vj ++ 93 :: R)) =
       .ok ({ st with tagStarts := st.tagStarts ++ [(l, 34 :: 58 :: 91 :: (vj ++ 93 :: R))],
                      letters := l :: st.letters }, R) := by
   have hlen := ftagValuesJson_length vs true vj hv
   have hb := burnArray_values vs hu true vj R hv (burnFuel (vj ++ 93 :: R)) (by unfold burnFuel; simp; omega)
-  have h32' : ¬ st.tagStarts.length ≥ 32 := by omega
+  have h32' : ¬ st.tagStarts.length ≥ 52 := by omega
   simp [flMember, verifyChar, startsWith, kIds, kAuthors, kKinds, kSince, kUntil, kLimit, hl, h32', hnew,
     eatColon_plain 91 _ (by decide), hb]
 
@@ -417,7 +418,7 @@ theorem ftagsJson_length (ts : TagsRec) (hok : ∀ t ∈ ts, FTagOk t) (first : 
 
 /-- the first pass over all tag constraints -/
 theorem seg_tags (ts : TagsRec) (hok : ∀ t ∈ ts, FTagOk t) (hnd : (ts.map tagLetter).Nodup)
-    (st : FlSt) (hnew : ∀ t ∈ ts, tagLetter t ∉ st.letters) (h32 : st.tagStarts.length + ts.length ≤ 32)
+    (st : FlSt) (hnew : ∀ t ∈ ts, tagLetter t ∉ st.letters) (h32 : st.tagStarts.length + ts.length ≤ 52)
     (first : Bool) (p : Bytes) (f' : Bool) (h : ftagsJson ts first = .ok (p, f')) (X : Bytes)
     (fuel : Nat) (hf : (p ++ X).length + 1 ≤ fuel) :
     ∃ fuel' starts L, X.length + 1 ≤ fuel' ∧ StartsFor starts ts ∧
@@ -504,14 +505,13 @@ theorem kindsJson_length (l : List Nat) (first : Bool) : l.length ≤ (kindsJson
 /-! ### the whole filter -/
 
 /-- a filter as `parse_json_filter` can produce it: sized fields, and tag constraints named by at
-most 32 distinct letters with UTF-8 values -/
+distinct letters (hence at most 52) with UTF-8 values -/
 structure FilterCanon (f : FilterRec) : Prop where
   sized : FilterSized f
   idb : ∀ x ∈ f.ids, ∀ b ∈ x, b < 256
   aub : ∀ x ∈ f.authors, ∀ b ∈ x, b < 256
   tagsOk : ∀ t ∈ f.tags, FTagOk t
   letters : (f.tags.map tagLetter).Nodup
-  n32 : f.tags.length ≤ 32
 
 theorem headOk_piece (c first : Bool) (body X : Bytes) (hX : HeadOk X) :
     HeadOk ((if c then [] else (if first then [] else [44]) ++ 34 :: body) ++ X) := by
@@ -601,7 +601,14 @@ theorem parseFilter_filterJson (f : FilterRec) (hc : FilterCanon f) (txt : Bytes
     (ht : filterJson f = .ok txt) (rest buf : Bytes) (hbuf : (encodeFilter f).length ≤ buf.length) :
     parseFilter (txt ++ rest) buf =
       .ok (txt.length, (encodeFilter f).length, encodeFilter f ++ buf.drop (encodeFilter f).length) := by
-  obtain ⟨hs, hidb, haub, htok, hlet, h32⟩ := hc
+  obtain ⟨hs, hidb, haub, htok, hlet⟩ := hc
+  have h32 : f.tags.length ≤ 52 := by
+    have := letters_le_52 (f.tags.map tagLetter) hlet (by
+      intro l hl
+      obtain ⟨t, ht, rfl⟩ := List.mem_map.mp hl
+      obtain ⟨l', vs, rfl, hl', _, _⟩ := htok t ht
+      exact hl')
+    simpa using this
   have hlenF := encodeFilter_length f hs
   rw [hlenF] at hbuf ⊢
   unfold filterSize at hbuf
